@@ -73,6 +73,7 @@
 //! # }
 //! ```
 
+use crate::node::PortTag;
 use crate::port::details::data_segment_shared_state::DataSegmentSharedState;
 use crate::port::port_name::PortName;
 use crate::port::update_connections::UpdateConnections;
@@ -149,7 +150,7 @@ pub struct SharedServerState<Service: service::Service> {
     // the struct.
     // Otherwise the process might crash during cleanup, has already removed the tag but other resources
     // are still existing. This would make a cleanup from another process impossible.
-    port_tag: Service::StaticStorage,
+    port_tag: PortTag<Service>,
 }
 
 impl<Service: service::Service> DataSegmentSharedState for SharedServerState<Service> {
@@ -202,7 +203,7 @@ impl<Service: service::Service> Abandonable for SharedServerState<Service> {
         unsafe { Sender::abandon_in_place(NonNull::from_mut(&mut this.response_sender)) };
         unsafe { Receiver::abandon_in_place(NonNull::from_mut(&mut this.request_receiver)) };
         unsafe { SharedServiceState::abandon_in_place(NonNull::from_mut(&mut this.service_state)) };
-        unsafe { Service::StaticStorage::abandon_in_place(NonNull::from_mut(&mut this.port_tag)) };
+        unsafe { PortTag::<Service>::abandon_in_place(NonNull::from_mut(&mut this.port_tag)) };
     }
 }
 
